@@ -242,8 +242,8 @@ def analyse_checks(events):
     return valid, invalid
 
 
-def rule_r4(rep, program, runs, prop=PROP):
-    r = rep.rule("R4", "every implicit / retraction sub-step on the stepped object is covered by a complete forward-backward reversibility check raising NonReversibleStepError, in the same block", floor=4)
+def rule_r4(rep, program, runs, prop=PROP, rule="R4"):
+    r = rep.rule(rule, "every implicit / retraction sub-step on the stepped object is covered by a complete forward-backward reversibility check raising NonReversibleStepError, in the same block", floor=4)
     seen = set()
     for k, label, events, _comp in runs:
         if label in seen:
